@@ -476,7 +476,21 @@ func (i *interpreter) truth(v value, why string) bool {
 // concInt returns a concrete int64 for integer v. A symbolic v is enumerated
 // over [lo,hi] (inclusive) by a chain of binary decisions; values outside are
 // the caller's responsibility (must have been excluded by obligations).
+// singleton returns the concrete value of a symbolic integer whose interval
+// facts pin it to one value.
+func (i *interpreter) singleton(v value) value {
+	sv, ok := v.(*Sym)
+	if !ok || !sv.T.Sort.IsBV() {
+		return v
+	}
+	if r := i.rangeOf(sv.T); r.lo == r.hi {
+		return constToValue(i.st.BV(sv.T.Sort.Width(), r.lo), sv.K)
+	}
+	return v
+}
+
 func (i *interpreter) concInt(v value, lo, hi int64, why string) int64 {
+	v = i.singleton(v)
 	sv, ok := v.(*Sym)
 	if !ok {
 		return asInt64(v)
